@@ -527,9 +527,17 @@ Definition build_relay_forward (hop : N) (link peer : bytes) (ifid : bytes) (cli
 Definition remove_range (data : bytes) (s e : N) : result bytes :=
   a <- sl 0 s data;; b <- slf e data;; Ok (a ++ b).
 
-(* scan of InsertOption82: (endIdx or None, existing82 (start,end) or None) *)
-Fixpoint o82_scan (fuel : nat) (i : N) (pkt : bytes) (ex : option (N * N))
-  : result (option N * option (N * N)) :=
+(* removeRanges: the ranges are kept last-found-first, i.e. in the order Go's backwards loop visits them *)
+Fixpoint remove_ranges (data : bytes) (rs : list (N * N)) : result bytes :=
+  match rs with
+  | [] => Ok data
+  | (s, e) :: r => d <- remove_range data s e;; remove_ranges d r
+  end.
+Definition ranges_total (rs : list (N * N)) : N := fold_right (fun r t => (snd r - fst r) + t) 0 rs.
+
+(* scan of InsertOption82 / StripOption82: (endIdx or None, every complete option 82, last found first) *)
+Fixpoint o82_scan (fuel : nat) (i : N) (pkt : bytes) (ex : list (N * N))
+  : result (option N * list (N * N)) :=
   match fuel with
   | O => OutOfFuel
   | S f =>
@@ -540,45 +548,26 @@ Fixpoint o82_scan (fuel : nat) (i : N) (pkt : bytes) (ex : option (N * N))
       if lenN pkt <=? i + 1 then Ok (None, ex) else
       ol <- idx (i + 1) pkt;;
       if lenN pkt <? i + 2 + ol then Ok (None, ex) else
-      o82_scan f (i + 2 + ol) pkt (if c =? 82 then Some (i, i + 2 + ol) else ex)
+      o82_scan f (i + 2 + ol) pkt (if c =? 82 then (i, i + 2 + ol) :: ex else ex)
     else Ok (None, ex)
   end.
 (* policy: 1 keep, 2 drop, anything else replace *)
 Definition insert_option82 (pkt opt82 : bytes) (policy : N) : result bytes :=
   if lenN pkt <? 240 then Ok pkt else
-  sc <- o82_scan (S (length pkt)) 240 pkt None;;
+  sc <- o82_scan (S (length pkt)) 240 pkt [];;
   let endidx := match fst sc with Some e => e | None => lenN pkt end in
   let ex := snd sc in
-  match ex, policy with
-  | Some _, 1 => Ok pkt
-  | Some (s, e), 2 => remove_range pkt s e
-  | None, 2 => Ok pkt
-  | _, _ =>
-    pe <- (match ex with
-           | Some (s, e) => p <- remove_range pkt s e;; Ok (p, endidx - (e - s))
-           | None => Ok (pkt, endidx) end);;
-    let pkt' := fst pe in let endidx' := snd pe in
-    a <- sl 0 endidx' pkt';; b <- slf endidx' pkt';; Ok (a ++ opt82 ++ b)
-  end.
+  if (policy =? 1) && negb (match ex with [] => true | _ => false end) then Ok pkt else
+  if policy =? 2 then remove_ranges pkt ex else
+  let endidx' := endidx - ranges_total ex in
+  pkt' <- remove_ranges pkt ex;;
+  a <- sl 0 endidx' pkt';; b <- slf endidx' pkt';; Ok (a ++ opt82 ++ b).
 
-Fixpoint strip_scan (fuel : nat) (i : N) (pkt : bytes) : result (option (N * N)) :=
-  match fuel with
-  | O => OutOfFuel
-  | S f =>
-    if i <? lenN pkt then
-      c <- idx i pkt;;
-      if c =? 0 then strip_scan f (i + 1) pkt else
-      if c =? 255 then Ok None else
-      if lenN pkt <=? i + 1 then Ok None else
-      ol <- idx (i + 1) pkt;;
-      if lenN pkt <? i + 2 + ol then Ok None else
-      if c =? 82 then Ok (Some (i, i + 2 + ol)) else strip_scan f (i + 2 + ol) pkt
-    else Ok None
-  end.
+(* StripOption82 (the same walk; the End offset is not used) *)
 Definition strip_option82 (pkt : bytes) : result bytes :=
   if lenN pkt <? 240 then Ok pkt else
-  r <- strip_scan (S (length pkt)) 240 pkt;;
-  match r with Some (s, e) => remove_range pkt s e | None => Ok pkt end.
+  sc <- o82_scan (S (length pkt)) 240 pkt [];;
+  remove_ranges pkt (snd sc).
 
 (* findOption: offset of the option or None (-1) *)
 Fixpoint find_opt_loop (fuel : nat) (i : N) (pkt : bytes) (code : N) : result (option N) :=
@@ -614,16 +603,31 @@ Fixpoint ins_scan (fuel : nat) (i : N) (pkt : bytes) : result N :=
 Definition insert_option (pkt : bytes) (code : N) (val : bytes) : result bytes :=
   e <- (if 240 <=? lenN pkt then ins_scan (S (length pkt)) 240 pkt else Ok (lenN pkt));;
   a <- sl 0 e pkt;; b <- slf e pkt;; Ok (a ++ code :: byte_of (lenN val) :: val ++ b).
-(* SetOptionUint32 / SetOptionIP with a 4-byte value *)
+(* optionSpans: every complete instance of the option before End, last found first *)
+Fixpoint spans_loop (fuel : nat) (i : N) (pkt : bytes) (code : N) (acc : list (N * N)) : result (list (N * N)) :=
+  match fuel with
+  | O => OutOfFuel
+  | S f =>
+    if i <? lenN pkt then
+      c <- idx i pkt;;
+      if c =? 0 then spans_loop f (i + 1) pkt code acc else
+      if (c =? 255) || (lenN pkt <=? i + 1) then Ok acc else
+      ol <- idx (i + 1) pkt;;
+      let e := i + 2 + ol in
+      if lenN pkt <? e then Ok acc else
+      spans_loop f e pkt code (if c =? code then (i, e) :: acc else acc)
+    else Ok acc
+  end.
+Definition option_spans (pkt : bytes) (code : N) := spans_loop (S (length pkt)) 240 pkt code [].
+(* setOption4 (SetOptionUint32 / SetOptionIP with a 4-byte value) *)
 Definition set_option4 (pkt : bytes) (code : N) (val : bytes) : result bytes :=
-  o <- find_option pkt code;;
-  match o with
-  | Some off =>
-    l <- (if off + 5 <? lenN pkt then idx (off + 1) pkt else Ok 0);;
-    if (off + 5 <? lenN pkt) && (l =? 4) then
-      a <- sl 0 (off + 2) pkt;; b <- slf (off + 6) pkt;; Ok (a ++ val ++ b)
-    else insert_option pkt code val
-  | None => insert_option pkt code val
+  spans <- option_spans pkt code;;
+  match spans with
+  | [(s, e)] =>
+    if e - s =? 6 then
+      (a <- sl 0 (s + 2) pkt;; w <- sl (s + 2) (s + 6) pkt;; b <- slf (s + 6) pkt;; Ok (a ++ val ++ b))
+    else (p <- remove_ranges pkt spans;; insert_option p code val)
+  | _ => p <- remove_ranges pkt spans;; insert_option p code val
   end.
 Definition get_option4 (pkt : bytes) (code : N) : result (option bytes) :=
   o <- find_option pkt code;;
